@@ -119,3 +119,4 @@ PROP = C15()
 
 PROP.rule += (" Strata added while closing seeded changes (DESIGN section 10): "
               'probe purity (a read never changes the section, curve samples included), underscore / case-quirk names, history continued on pickle/copy/deepcopy of the section.')
+PROP.rule += ' Round 8: keys with stray blanks.'
